@@ -18,7 +18,20 @@
      128 = F-SORT-EMPTY-COMPONENT  a $sort key whose last dotted component is empty ("" or "a."):
                             the documents are ordered by the whole parent (the finding of C11)
      256 = F-UNWIND-OPTION     a $unwind option document with a name other than path,
-                            preserveNullAndEmptyArrays, includeArrayIndex is accepted *)
+                            preserveNullAndEmptyArrays, includeArrayIndex is accepted
+     512 = F-PROJECT-FALSY-COMPUTED  a $project field whose value is an expression that Python
+                            reads as false ("", [], {}, null): the library takes it for an
+                            exclusion flag - "Bad projection" after an included field, or an
+                            exclusion-mode answer without _id - where the field is computed
+                            (Refuted/C03.v, 5)
+     1024 = F-LOOKUP-OPERATOR-VALUE  the local value of a $lookup is a sub-document with a key
+                            that starts with "$": the library puts it into the equality filter
+                            as it is, so it is run as an operator query ({a: {$gt: 1}} joins
+                            every foreign document with a field > 1) where the statement
+                            compares it as a value (Refuted/C03.v, 6)
+     2048 = F-GROUP-KEY-OBJECTID  two documents of a $group input have a key holding an ObjectId:
+                            the library sorts the keys before grouping and its ObjectId has no
+                            ordering, so the stage raises TypeError (Refuted/C03.v, 7) *)
 From Coq Require Import ZArith List String Bool Ascii.
 From Verif Require Import Value PyEq BsonOrder Path Update Filter FilterSpec FilterGuard Coll
      Expr ExprSpec ExprGuard Pipeline PipelineSpec.
@@ -41,6 +54,15 @@ Definition expr_finding (e : value) (l : list value) : bool :=
 
 Definition key_of_model (e : value) (d : value) : option value :=
   match eval [] d true e with EV v => Some v | EMiss => Some VNull | EE _ => None end.
+
+(* an ObjectId, or an array holding one *)
+Fixpoint has_oid (v : value) : bool :=
+  match v with
+  | VOid _ => true
+  | VArr xs => (fix go (xs : list value) : bool :=
+                  match xs with [] => false | x :: xs' => has_oid x || go xs' end) xs
+  | _ => false
+  end.
 
 Definition stage_reasons (db : dbmap) (op : string) (o : value) (l : list value) : Z :=
   if op =? "$match" then
@@ -67,10 +89,11 @@ Definition stage_reasons (db : dbmap) (op : string) (o : value) (l : list value)
     match o with
     | VDoc fs =>
         Z.lor (zb (existsb (fun kv => negb (is_flag (snd kv)) && expr_finding (snd kv) l) fs) 2)
-              (zb (match fs with
+       (Z.lor (zb (match fs with
                    | ("_id", v) :: rest => truthy v && existsb (fun kv => is_flag (snd kv) && negb (truthy (snd kv))) rest
                    | _ => false
                    end) 16)
+              (zb (existsb (fun kv => negb (is_flag (snd kv)) && negb (truthy (snd kv))) fs) 512))
     | _ => 0
     end
   else if op =? "$replaceRoot" then
@@ -86,6 +109,9 @@ Definition stage_reasons (db : dbmap) (op : string) (o : value) (l : list value)
         | Some ide =>
             let accs := del_key "_id" fs in
             Z.lor (zb (expr_finding ide l) 2)
+           (Z.lor (zb (negb (is_null ide) &&
+                       (1 <?? Z.of_nat (List.length (List.filter (fun d => match key_of_model ide d with
+                                                                           | Some k => has_oid k | None => false end) l)))) 2048)
            (Z.lor (zb (existsb (fun d => match key_of_model ide d with
                                          | Some k => negb (plain k) | None => false end) l) 4)
            (Z.lor (zb (existsb (fun kv => match snd kv with
@@ -104,7 +130,7 @@ Definition stage_reasons (db : dbmap) (op : string) (o : value) (l : list value)
                                                                  && existsb (fun d => match eval [] d true (snd oe) with
                                                                                       | EMiss => true
                                                                                       | _ => false end) l) ops
-                                          | _ => false end) accs) 8))))
+                                          | _ => false end) accs) 8)))))
         end
     | _ => 0
     end
@@ -114,10 +140,14 @@ Definition stage_reasons (db : dbmap) (op : string) (o : value) (l : list value)
         match assoc "from" ofs, assoc "localField" ofs, assoc "foreignField" ofs with
         | Some (VStr from), Some (VStr lf), Some (VStr ff) =>
             let foreign := match assoc from db with Some ds => ds | None => [] end in
-            zb (existsb (fun d =>
+            Z.lor
+           (zb (existsb (fun d =>
                            let q := match get_by_dot (split_dots lf) d with Some v => v | None => VNull end in
                            let q' := match q with VArr _ => VDoc [("$in", q)] | _ => q end in
-                           existsb (filter_finding (VDoc [(ff, q')])) foreign) l) 1
+                           existsb (filter_finding (VDoc [(ff, q')])) foreign) l) 1)
+           (zb (existsb (fun d => match get_by_dot (split_dots lf) d with
+                                  | Some (VDoc x) => any_dollar x
+                                  | _ => false end) l) 1024)
         | _, _, _ => 0
         end
     | _ => 0
